@@ -8,16 +8,87 @@ counts library line boundaries.  A *plan* is a list of steps
     [name, k]              let thread `name` run until its k-th library line boundary (cumulative count)
     [name, None]           let thread `name` run to completion
 
-Hand-over uses semaphores: exactly one thread runs at a time, so a plan replays
+Hand-over uses binary gates: exactly one thread runs at a time, so a plan replays
 bit-for-bit and the monitors' own logs need no locking.  Threads that are not
-mentioned any more are run to completion at the end, in name order."""
+mentioned any more are run to completion at the end, in name order.
+
+Locks are scheduling points.  `patch_locks()` (called by pv.core.env.setup before the library is imported) replaces
+threading.Lock / threading.RLock by drop-in classes whose *blocking* acquire, when called by a scheduled thread and the
+lock is taken, hands control back to the controller instead of blocking for good: the controller lets the other thread
+advance one library line boundary at a time until the lock is free, then retries.  A tree that serialises reloads with a
+lock is therefore explored (the waiting thread simply waits, as it would in reality) instead of hanging the scheduler."""
+import _thread
 import sys
 import threading
 
 from pv.core import env
 
 TOOL = 3
-_state = {'active': None, 'installed': False, 'pkg': None}
+_state = {'active': None, 'installed': False, 'pkg': None, 'locks_patched': False}
+
+
+class _Gate:
+    """Binary hand-off built on a raw lock (never on the patched classes)."""
+
+    def __init__(self):
+        self._l = _thread.allocate_lock()
+        self._l.acquire()
+
+    def release(self):
+        self._l.release()
+
+    def acquire(self, timeout=None):
+        return self._l.acquire(True, -1 if timeout is None else timeout)
+
+
+class CoopLock:
+    """threading.Lock whose blocking acquire is a scheduling point for threads run by the scheduler."""
+
+    def __init__(self):
+        self._l = _thread.allocate_lock()
+
+    def acquire(self, blocking=True, timeout=-1):
+        s = _state['active']
+        if s is not None and blocking:
+            n = s.ids.get(_thread.get_ident())
+            if n is not None:
+                while not self._l.acquire(False):
+                    s.yield_blocked(n)
+                return True
+        return self._l.acquire(blocking, timeout)
+
+    __enter__ = acquire
+
+    def release(self):
+        self._l.release()
+
+    def __exit__(self, *a):
+        self._l.release()
+
+    def locked(self):
+        return self._l.locked()
+
+    def _at_fork_reinit(self):
+        self._l._at_fork_reinit()
+
+    def __repr__(self):
+        return '<CoopLock %s>' % ('locked' if self._l.locked() else 'unlocked')
+
+
+class CoopRLock(threading._RLock):
+    """The pure-Python re-entrant lock of the standard library on top of a CoopLock."""
+
+    def __init__(self):
+        super().__init__()
+        self._block = CoopLock()
+
+
+def patch_locks():
+    if _state['locks_patched']:
+        return
+    threading.Lock = CoopLock
+    threading.RLock = CoopRLock
+    _state['locks_patched'] = True
 
 
 def _on_line(code, line):
@@ -61,8 +132,10 @@ class Run:
         self.counts = {n: 0 for n in funcs}
         self.ids = {}
         self.res = {}
-        self.go = {n: threading.Semaphore(0) for n in funcs}
-        self.back = threading.Semaphore(0)
+        self.go = {n: _Gate() for n in funcs}
+        self.back = _Gate()
+        self.blocked = {n: False for n in funcs}
+        self.lock_waits = 0                               # how often a scheduled thread had to wait for a lock
         self.stop_at = {n: None for n in funcs}
         self.done = {n: False for n in funcs}
         self.threads = {}
@@ -94,6 +167,44 @@ class Run:
             self.back.release()
             self.go[n].acquire()
 
+    def yield_blocked(self, n):
+        """Called by scheduled thread n when a lock it wants is taken: give the turn back, marked as waiting."""
+        self.blocked[n] = True
+        self.lock_waits += 1
+        self.back.release()
+        self.go[n].acquire()
+        self.blocked[n] = False
+
+    def _turn(self, n, watchdog):
+        self.go[n].release()
+        if not self.back.acquire(timeout=watchdog):
+            raise Watchdog('thread %s did not reach its next boundary' % n)
+
+    def _advance(self, n, k, watchdog):
+        """Let thread n run until its k-th boundary (None: to completion).  While n waits for a lock, the other threads
+        advance one boundary at a time (in name order) until n can go on."""
+        self.stop_at[n] = k
+        self._turn(n, watchdog)
+        spins = 0
+        while self.blocked[n]:
+            others = [m for m in sorted(self.funcs) if m != n and not self.done[m]]
+            if not others:
+                raise Watchdog('thread %s waits for a lock nobody will release' % n)
+            progressed = False
+            for m in others:
+                before = self.counts[m]
+                self.stop_at[m] = self.counts[m] + 1
+                self._turn(m, watchdog)
+                if self.done[m] or (self.counts[m] > before and not self.blocked[m]):
+                    progressed = True
+                self.stop_at[m] = None
+                if progressed:
+                    break
+            spins += 1
+            if not progressed or spins > 500000:
+                raise Watchdog('deadlock: every thread waits for a lock')
+            self._turn(n, watchdog)
+
     def run(self, watchdog=60.0):
         install()
         _state['active'] = self
@@ -109,16 +220,10 @@ class Run:
                 n, k = step[0], step[1]
                 if self.done[n]:
                     continue
-                self.stop_at[n] = k
-                self.go[n].release()
-                if not self.back.acquire(timeout=watchdog):
-                    raise Watchdog('thread %s did not reach its next boundary' % n)
+                self._advance(n, k, watchdog)
             for n in sorted(self.funcs):
                 while not self.done[n]:
-                    self.stop_at[n] = None
-                    self.go[n].release()
-                    if not self.back.acquire(timeout=watchdog):
-                        raise Watchdog('thread %s did not finish' % n)
+                    self._advance(n, None, watchdog)
             for t in self.threads.values():
                 t.join(timeout=watchdog)
         finally:
